@@ -397,7 +397,9 @@ def mk_end_state(name, icode_twin=None, params=None, mutant=None):
         for cname in list(mol.conformation_names) + ['AVR']:
             conf = mol.conformations[cname]
             # 'the two Coulomb determinants of an acid-base pair of reported protein side chains are equal and opposite'
-            side = [g for g in conf.groups if g.titratable and g.atom.type == 'atom' and g.residue_type not in ('N+', 'C-')]
+            # 'reported': a group that was penalised in a covalently coupled system (coupled_titrating_group set) is not reported
+            # and its determinants were removed from its partners (finding F9 concerns that mechanism, not this clause)
+            side = [g for g in conf.groups if g.titratable and g.atom.type == 'atom' and g.residue_type not in ('N+', 'C-') and not g.coupled_titrating_group]
             for ga in [g for g in side if g.type in ACIDS]:
                 for gb in [g for g in side if g.type in BASES]:
                     # partner matched by object, not by label (labels of insertion-coded twins coincide: finding F5)
